@@ -45,6 +45,13 @@ TStep ==
        [] ev.op = "proposal" ->
             LET r == CheckProposal(ev.frame, ev.n, ev.signs) IN
             Pure(ev, r.res, Quorum(ev.signs, ev.n), r.dev, "KF_RepeatedSignerCounts")
+       [] ev.op = "receive" ->
+            \* accepted only with a quorum of the set in force for the CERTIFIED view (ev.vc); the set of the carrying
+            \* proposal's view (ev.vp) gives nothing
+            LET vc == {ev.vc[x] : x \in DOMAIN ev.vc}
+                vp == {ev.vp[x] : x \in DOMAIN ev.vp}
+                r  == ReceiveProposal(vc, vp, ev.signs)
+            IN Pure(ev, r.res, QuorumS(ev.signs, vc), r.dev, "KF_RepeatedSignerCounts")
        [] ev.op = "vote" ->
             LET r == CheckVote(ev.n, ev.signs) IN
             Pure(ev, r.res, Len(ev.signs) > 0 /\ ValidMember(ev.signs[1], ev.n), r.dev, "KF_VoteAcceptsFailedVerify")
